@@ -187,8 +187,9 @@ def specs(tier, seed):
         n = 40
         for i in range(0, len(cells), n):
             out.append(('cells', kind, i // n, tuple(cells[i:i + n])))
-    for part in range(6):
-        out.append(('fp', tier, part, 6, seed))
+    nfp = 6 if tier == 'quick' else 14
+    for part in range(nfp):
+        out.append(('fp', tier, part, nfp, seed))
     return out
 
 
@@ -200,7 +201,7 @@ def build(sp):
     return Batch('%s:%d' % (kind, i), [Convert(*c[1:]) if c[0] == 'convert' else Compare(*c[1:]) for c in cells])
 
 
-JOB_CAP = {'quick': 900, 'thorough': 3000}
+JOB_CAP = {'quick': 900, 'thorough': 3600}
 REQUIRED_TRIGGERS = {'quick': ('conv.value_is_si_ratio', 'conv.copy_equals_inplace', 'conv.round_trip', 'conv.inplace_then_copy',
                                'conv.inplace_round_trip', 'conv.inplace_converted_equals_fresh',
                                'cmp.order_outside_abs_band', 'cmp.self_conversion_equal_both_ways')}
@@ -209,7 +210,7 @@ BOUNDS = {
              'two-step histories in-place-then-copy to a third unit / in-place round trip / comparison of the in-place converted object with a '
              'fresh one), magnitude any real allowed by the kind; comparisons: one same-unit and three seeded cross-unit pairs per kind, both magnitudes any real; FP: '
              'x == x.to(u) in both directions for 12 seeded (kind, unit pair) cells, doubles with |x| in [1e-9,1e9], 25 s/query',
-    'thorough': 'comparisons on every ordered unit pair; FP: 60 cells, 180 s/query',
+    'thorough': 'comparisons on every ordered unit pair; FP: 39 cells, 100 s/query',
 }
 OUTSIDE = ('FP mode is bug hunting only (4-operation FP proofs are out of reach: a capped query that ends unknown is '
            'reported as undecided); magnitudes beyond the stated FP range; non-finite values')
